@@ -173,19 +173,11 @@ def run(ctx):
         c["id"] = i
     ctx.extra["generated_files"] = len(cases)
     ctx.extra["design_states"] = r.distinct
-    # in rounds, to bound the size of one trace
-    step = 130
-    for k in range(0, len(cases), step):
-        name = "bfs%d" % (k // step)
-        raw = run_cases(ctx, vh, name, cases[k:k + step])
-        account(ctx, raw)
-        report(ctx, judge(ctx, name, raw), "TLC-generated files")
-        cleanup(ctx, name)
     ctx.sample({"file": {"fmt": cases[0]["fmt"]}, "cuts": "all"})
-
-    # seeded larger files of the same abstract form
     ctx.extra["random_files"] = 0
-    for rd in range(1 if quick else 8):
+
+    def seeded(rd):
+        """seeded larger files of the same abstract form"""
         d = ctx.scratch("rnd%d" % rd)
         rp = os.path.join(d, "r.ndjson")
         core.run_vh(vh, ["pot-random", "-out", rp, "-seed", str(ctx.seed * 1000 + rd), "-n", str(16 if quick else 96),
@@ -194,10 +186,27 @@ def run(ctx):
         for c in rnd:
             c["id"] += rd * 100000
         ctx.extra["random_files"] += len(rnd)
-        raw = run_cases(ctx, vh, "rnd%d" % rd, rnd, maxcuts=260 if quick else 500)
+        return run_cases(ctx, vh, "rnd%d" % rd, rnd, maxcuts=260 if quick else 500)
+
+    if quick:
+        # one trace: the TLC-generated files and one seeded round
+        raw = run_cases(ctx, vh, "bfs", cases) + seeded(0)
         account(ctx, raw)
-        report(ctx, judge(ctx, "rnd%d" % rd, raw), "seeded files, round %d" % rd)
-        cleanup(ctx, "rnd%d" % rd)
+        report(ctx, judge(ctx, "all", raw), "TLC-generated and seeded files")
+    else:
+        # in rounds, to bound the size of one trace
+        step = 400
+        for k in range(0, len(cases), step):
+            name = "bfs%d" % (k // step)
+            raw = run_cases(ctx, vh, name, cases[k:k + step])
+            account(ctx, raw)
+            report(ctx, judge(ctx, name, raw), "TLC-generated files")
+            cleanup(ctx, name)
+        for rd in range(8):
+            raw = seeded(rd)
+            account(ctx, raw)
+            report(ctx, judge(ctx, "rnd%d" % rd, raw), "seeded files, round %d" % rd)
+            cleanup(ctx, "rnd%d" % rd)
 
     if not quick:
         selftest(ctx, vh, cases)
